@@ -1228,7 +1228,7 @@ class Interp:
                 ast.copy_location(x, s)
         ast.fix_missing_locations(new)
         self.eng.idioms.setdefault(self.fname, set()).add(
-            f"line {getattr(s, 'lineno', '?')}: for {xname} in {dsrc}.{it_.func.attr}() with in-place mutation of {xname} -> keyed loop with write-back (aliasing)")
+            f"line {getattr(s, 'lineno', '?')}: for {xname} in {dsrc}.{it_.func.attr}() with in-place mutation of {xname} -> keyed loop with write-back (aliasing of the loop variable with the dict value made explicit; ASSUMES the values of the dict are pairwise distinct objects, as everywhere in the value encoding of containers)")
         return new
 
     def loop(self, s, kind):
